@@ -1,5 +1,6 @@
 """C09: updown topranking gives identical results for CSV and FASTA inputs."""
 import common as cm
+import cmdlayer
 import gen
 import udgen
 from props.C08 import tr_case
@@ -95,4 +96,13 @@ def post_go(ctx, cases, obs):
 
 
 def coverage_extra(ctx):
-    return {"second_stage_go_runs": _state.get("second_stage_runs", 0), "format_combinations": 4}
+    return {"binary_runs": _cmd_state.get("binary_runs", 0), "second_stage_go_runs": _state.get("second_stage_runs", 0), "format_combinations": 4}
+
+
+def extra(ctx, obl, cases, obs):
+    """the command through the built binary (cmd/*.go): binary = library entry point, and the option handling the command does itself"""
+    n = 2 if ctx.tier == "quick" else 12
+    _cmd_state["binary_runs"] = cmdlayer.updown_layer(ctx, 'topranking', n)
+
+
+_cmd_state = {}
